@@ -47,6 +47,7 @@ type Field struct {
 	Ptr   bool   `json:"ptr,omitempty"`   // Go field / value is a pointer
 	Maybe bool   `json:"maybe,omitempty"` // tagged `yae:",maybe"` (implies Ptr)
 	Nil   bool   `json:"nil,omitempty"`   // pointer is nil (V is then only the static prototype)
+	Tag   int    `json:"tag,omitempty"`   // spelling of the struct tag: 0 plain, 1 padded with spaces, 2 upper-case optional marker
 }
 
 // Env7 is an environment: ordered bindings + the carrier that materialises it.
@@ -159,6 +160,17 @@ func structType(fs []*Field) reflect.Type {
 		tag := `yae:"` + f.Name + `"`
 		if f.Maybe {
 			tag = `yae:"` + f.Name + `,maybe"`
+		}
+		switch f.Tag {
+		case 1:
+			tag = `yae:" ` + f.Name + ` "`
+			if f.Maybe {
+				tag = `yae:" ` + f.Name + ` , maybe "`
+			}
+		case 2:
+			if f.Maybe {
+				tag = `yae:"` + f.Name + `,MAYBE"`
+			}
 		}
 		sf[i] = reflect.StructField{Name: fmt.Sprintf("F%d_%s", i, exportable(f.Name)), Type: t, Tag: reflect.StructTag(tag)}
 	}
@@ -500,13 +512,18 @@ func genProg7(r *rng, e *Env7) string {
 	for i := range parts {
 		parts[i] = fmt.Sprintf("r%d: %s", i, xs[r.intn(len(xs))])
 	}
+	if r.chance(0.3) {
+		// sub-expressions that do not depend on the environment at all: a rejected call
+		// must not have evaluated them either
+		parts = append(parts, "rk: "+r.pick([]string{"tr(7)", "first([tr(\"lit\")], \"d\")", "when(tr(true), tr(1), tr(2))", "inc(tr(41))"}))
+	}
 	return "{" + strings.Join(parts, ", ") + "}"
 }
 
 // --- mutations ---------------------------------------------------------------------
 
 var mutKinds = []string{"same", "same", "contents", "extra", "numkind", "ptrflip", "carrier", "reorder", "reorder", "reorder-top",
-	"maybe-flip", "retype-maybe", "raw", "array", "empty", "empty-retype", "hetero", "hetero", "drop", "retype-top", "retype-deep", "field-add", "field-remove", "field-rename", "nil-flip", "bad"}
+	"maybe-flip", "retype-maybe", "tagstyle", "raw", "array", "empty", "empty-retype", "hetero", "hetero", "drop", "retype-top", "retype-deep", "field-add", "field-remove", "field-rename", "nil-flip", "bad"}
 
 // collect object nodes (with their depth) below the bindings
 func objNodes(e *Env7) []*VT {
@@ -642,6 +659,22 @@ func (g *gen7) mutate(a *Env7, kind string) *Env7 {
 				}
 			}
 			return false
+		})
+	case "tagstyle":
+		// another spelling of the same struct tags (padding, case of the optional marker):
+		// the names and optional markers they denote are unchanged
+		st := 1 + r.intn(2)
+		for _, b := range e.Binds {
+			b.Tag = st
+		}
+		mutateShape(&e, r, func(v *VT) bool {
+			if v.K != "obj" {
+				return false
+			}
+			for _, f := range v.Fields {
+				f.Tag = st
+			}
+			return true
 		})
 	case "retype-maybe":
 		// the payload type of an optional (tagged, nil or not) changes: maybe[num] vs maybe[str]
@@ -1119,7 +1152,7 @@ func runHist7(h *Hist7, x *evalCtx) hist7Result {
 
 // dominant names the mutation a violation is attributed to in its signature.
 var mutPriority = []string{"rawbot", "rawput", "again", "bad", "hetero", "empty-retype", "retype-maybe", "drop", "retype-top", "retype-deep", "field-add", "field-remove", "field-rename", "nil-flip",
-	"reorder", "reorder-top", "raw", "array", "empty", "carrier", "ptrflip", "numkind", "maybe-flip", "extra", "contents", "same"}
+	"reorder", "reorder-top", "raw", "array", "empty", "tagstyle", "carrier", "ptrflip", "numkind", "maybe-flip", "extra", "contents", "same"}
 
 func dominant(muts []string) string {
 	for _, p := range mutPriority {
